@@ -92,7 +92,7 @@ theorem exp2_run_exact (M Mi B K : Matrix (Fin n) (Fin n) ℝ) (hMi : Mi * M = 1
     | nil => simp at h4
     | cons g1 rest =>
       simp only [List.map_cons] at h1 h2
-      rw [runExp] at h1 h2
+      rw [runExp_cons_cons] at h1 h2
       cases j with
       | zero =>
         simp only [List.getElem?_cons_zero, Option.some.injEq] at h1 h3
